@@ -42,6 +42,7 @@ pub fn build_universe(rng: &mut Rng, big: bool) -> Universe {
 	let a_code = p.utf8("Code"); let a_lines = p.utf8("LineNumberTable"); let a_lvt = p.utf8("LocalVariableTable");
 	let a_lvtt = p.utf8("LocalVariableTypeTable"); let a_smt = p.utf8("StackMapTable"); let a_bsm = p.utf8("BootstrapMethods");
 	let name_x = p.utf8("x"); let desc_i = p.utf8("I"); let sig_t = p.utf8("TT;");
+	for n in ["m0", "ConstantValue", "SourceFile"] { p.utf8(n); }   // names of the vehicle classes of stream_pool
 	let mut by_kind: Vec<Vec<u16>> = vec![vec![]; 7];
 	// the groups are created in a random order (one aspect of pool layout)
 	let mut groups: Vec<u8> = vec![0, 1, 2, 3, 4, 5];
@@ -380,7 +381,7 @@ fn stream_generated(ctx: &Ctx, r: &mut Report, rng: &mut Rng) {
 		let u = build_universe(rng, big);
 		let mut pool = u.pool.clone();
 		let nm = rng.range(1, 8);
-		let ms: Vec<MethodGen> = (0..nm).map(|_| { let n = match rng.below(10) { 0 => 1, 1 => rng.range(40, 120), _ => rng.range(2, 25) }; gen_method(rng, &u, n, false) }).collect();
+		let ms: Vec<MethodGen> = (0..nm).map(|_| { let n = match rng.below(10) { 0 => 1, 1 => rng.range(40, 120), _ => rng.range(2, 25) }; gen_method(rng, &u, n, true) }).collect();
 		let bytes = class_of(&u, &ms, &mut pool);
 		for m in &ms {
 			r.case("gen-encode", m.g_enc_case());
@@ -429,17 +430,225 @@ fn classify_or_violate(r: &mut Report, what: String, replay: String) {
 	r.violation(what, replay);
 }
 
+// ---------------------------------------------------------------------------------------------
+// constant pool: every accessor on every index, through a vehicle class per query
+fn pool_queries(u: &Universe, rng: &mut Rng) -> Vec<(u8, u16)> {
+	let mut q = vec![];
+	let count = u.pool.count();
+	for kind in 0..=8u8 {
+		// the right kind, every other kind's entries (wrong kind), 0, the last index, beyond the pool
+		let mut idxs: Vec<u16> = vec![0, count - 1, count, 65535];
+		for k in 0..7 { for &i in &u.by_kind[k] { if k as u8 == kind || rng.chance(1, 6) { idxs.push(i); } } }
+		// second slots of Long/Double
+		for (e, &i) in u.pool.entries.iter().zip(&u.pool.index) { if matches!(e, PE::Long(_) | PE::Double(_)) && rng.chance(1, 8) { idxs.push(i + 1); } }
+		if kind == 7 || kind == 8 { for (e, &i) in u.pool.entries.iter().zip(&u.pool.index) { if rng.chance(1, 10) || matches!(e, PE::Str(_)) { idxs.push(i); } } }
+		idxs.sort(); idxs.dedup();
+		for i in idxs { q.push((kind, i)); }
+	}
+	q
+}
+
+/// what duke resolves (kind, idx) to: Ok(value) / Err (class rejected) / panic
+fn duke_resolve(u: &Universe, kind: u8, idx: u16) -> Result<Option<CVal>, String> {
+	let mut pool = u.pool.clone();
+	let name = pool.utf8("m0");
+	let (fields, methods, attrs): (Vec<Member>, Vec<Member>, Vec<Attr>) = match kind {
+		0..=6 => {
+			let ins: Insn<usize> = match kind {
+				0 => Insn::Gen(18, vec![Op::C(0, idx as u32)]), 1 => Insn::Gen(178, vec![Op::C(1, idx as u32)]),
+				2 => Insn::Gen(182, vec![Op::C(2, idx as u32)]), 3 => Insn::Gen(184, vec![Op::C(3, idx as u32)]),
+				4 => Insn::Gen(185, vec![Op::C(4, idx as u32)]), 5 => Insn::Gen(186, vec![Op::C(5, idx as u32)]),
+				_ => Insn::Gen(187, vec![Op::C(6, idx as u32)]),
+			};
+			let body = vec![ins, Insn::Gen(177, vec![])];
+			let form = match kind { 0 => Form::Plain(0x13), 1 => Form::Plain(178), 2 => Form::Plain(182), 3 => Form::Plain(184), 4 => Form::Plain(185), 5 => Form::Plain(186), _ => Form::Plain(187) };
+			let ch = vec![Choice { form, fill: if kind == 4 { 1 } else { 0 } }, Choice { form: Form::Plain(177), fill: 0 }];
+			let code = encode(&ch, &body).expect("vehicle encodes");
+			(vec![], vec![Member { access: 9, name, desc: u.desc_v, attrs: vec![(u.a_code, code_attr(4, 4, &code, &[], &[]))] }], vec![u.bsm_attr()])
+		}
+		7 => { let cv = pool.utf8("ConstantValue"); (vec![Member { access: 0x19, name, desc: u.desc_i, attrs: vec![(cv, idx.to_be_bytes().to_vec())] }], vec![], vec![]) }
+		_ => { let sf = pool.utf8("SourceFile"); (vec![], vec![], vec![(sf, idx.to_be_bytes().to_vec())]) }
+	};
+	let bytes = class_bytes(&pool, 0, 61, 0x21, u.this, u.sup, &[], &fields, &methods, &attrs);
+	guarded(move || {
+		let Ok(c) = duke::read_class(&mut Cursor::new(bytes)) else { return None };
+		match kind {
+			0..=6 => {
+				let code = c.methods.first()?.code.as_ref()?;
+				let x = xinsn_of(&code.instructions.first()?.instruction, &|_| None);
+				match x { XInsn::Gen(_, ops) => ops.into_iter().find_map(|o| if let XOp::V(v) = o { Some(v) } else { None }), _ => None }
+			}
+			7 => c.fields.first()?.constant_value.as_ref().map(|v| match v {
+				duke::tree::field::ConstantValue::Integer(i) => CVal::Int(*i), duke::tree::field::ConstantValue::Float(f) => CVal::Float(f.to_bits()),
+				duke::tree::field::ConstantValue::Long(l) => CVal::Long(*l), duke::tree::field::ConstantValue::Double(d) => CVal::Double(d.to_bits()),
+				duke::tree::field::ConstantValue::String(s) => CVal::Str(fbh::gal::cps(s)),
+			}),
+			_ => c.source_file.as_ref().map(|s| CVal::Utf8(fbh::gal::cps(s))),
+		}
+	})
+}
+
+fn stream_pool(ctx: &Ctx, r: &mut Report, rng: &mut Rng) {
+	for ui in 0..(if ctx.thorough { 30 } else { 5 }) {
+		let u = build_universe(rng, ui % 2 == 0);
+		let mut qs = vec![];
+		for (kind, idx) in pool_queries(&u, rng) {
+			let got = duke_resolve(&u, kind, idx);
+			let want = u.pool.resolve(kind, idx, &u.bsm);
+			r.eval(&format!("pool{ui}:{kind}:{idx}:{}", u.pool.count()), want.is_some());
+			r.count(&format!("pool_query_kind{kind}_{}", if want.is_some() { "ok" } else { "err" }));
+			match &got {
+				Err(p) => { r.violation(format!("pool accessor {kind} on index {idx} panicked: {p}"), format!("property C01\nwhat: resolving pool index {idx} with accessor {kind} panics: {p}\npool: {}\n", u.pool.gallina())); continue; }
+				Ok(g) => if *g != want {
+					r.violation(format!("pool accessor {kind} on index {idx}: duke resolves to {g:?}, the pool states {want:?}"),
+						format!("property C01\nwhat: pool index {idx} through accessor kind {kind} (0 loadable, 1 field ref, 2 method ref, 3 method or interface method ref, 4 interface method ref, 5 invokedynamic, 6 class, 7 ConstantValue, 8 utf8)\nduke: {g:?}\nJVMS resolution: {want:?}\npool: {}\nbootstrap methods: {}\n", u.pool.gallina(), g_bsm(&u.bsm)));
+				},
+			}
+			if let Ok(g) = got { qs.push(format!("({kind}, {idx}, {})", match g { Some(v) => format!("Ok {}", g_cval(&v)), None => "Err".into() })); }
+		}
+		r.case("pool", format!("CPool {} {} [{}]", u.pool.gallina(), g_bsm(&u.bsm), qs.join("; ")));
+	}
+}
+
+// ---------------------------------------------------------------------------------------------
+// access flags: JVMS tables 4.1-B, 4.5-A, 4.6-A, 4.7.6-A, 4.7.24, 4.7.25 (independent of duke)
+const JVMS_MASKS: [u16; 9] = [0xf631, 0x50df, 0x1dff, 0x761f, 0x9010, 0x9020, 0x9060, 0x9000, 0x9000];
+fn access_back(kind: usize, v: u16) -> u16 {
+	use duke::tree::{class::{ClassAccess, InnerClassFlags}, field::FieldAccess, method::{MethodAccess, ParameterFlags}, module::{ModuleFlags, ModuleRequiresFlags, ModuleExportsFlags, ModuleOpensFlags}};
+	match kind {
+		0 => u16::from(ClassAccess::from(v)), 1 => u16::from(FieldAccess::from(v)), 2 => u16::from(MethodAccess::from(v)),
+		3 => u16::from(InnerClassFlags::from(v)), 4 => u16::from(ParameterFlags::from(v)), 5 => u16::from(ModuleFlags::from(v)),
+		6 => u16::from(ModuleRequiresFlags::from(v)), 7 => u16::from(ModuleExportsFlags::from(v)), _ => u16::from(ModuleOpensFlags::from(v)),
+	}
+}
+fn stream_access(_ctx: &Ctx, r: &mut Report, rng: &mut Rng) {
+	const NAMES: [&str; 9] = ["ClassAccess", "FieldAccess", "MethodAccess", "InnerClassFlags", "ParameterFlags", "ModuleFlags", "ModuleRequiresFlags", "ModuleExportsFlags", "ModuleOpensFlags"];
+	for kind in 0..9 {
+		// the oracle sweeps all 65536 values on the implementation
+		for v in 0..=65535u16 {
+			let back = match guarded(move || access_back(kind, v)) { Ok(b) => b, Err(p) => { r.violation(format!("{}::from({v:#06x}) panicked: {p}", NAMES[kind]), format!("property C01\nwhat: {}::from({v:#06x}) panics\n", NAMES[kind])); break; } };
+			r.eval_distinct(v & JVMS_MASKS[kind] != 0);
+			if back != v & JVMS_MASKS[kind] {
+				r.violation(format!("{}: u16 {v:#06x} comes back as {back:#06x}; the flags JVMS defines there are {:#06x}", NAMES[kind], v & JVMS_MASKS[kind]),
+					format!("property C01\nwhat: access flags {v:#06x} read into {} and written back give {back:#06x}, JVMS-defined bits are {:#06x}\n", NAMES[kind], v & JVMS_MASKS[kind]));
+				break;
+			}
+		}
+		let mut vs: Vec<u16> = (0..16).map(|b| 1u16 << b).collect();
+		vs.extend([0, 0xffff, 0x0021, 0x1040]);
+		for _ in 0..12 { vs.push(rng.next() as u16); }
+		for v in vs { r.case("access", format!("CAccess {kind} {v} {}", access_back(kind, v))); }
+	}
+}
+
+// ---------------------------------------------------------------------------------------------
+// unknown attributes at class / field / method / code level
+fn stream_unknown(ctx: &Ctx, r: &mut Report, rng: &mut Rng) {
+	// JVMS table 4.7-C: the attributes defined per location (an attribute elsewhere is not predefined there)
+	let jvms: [&[&str]; 4] = [
+		&["SourceFile", "InnerClasses", "EnclosingMethod", "SourceDebugExtension", "BootstrapMethods", "Module", "ModulePackages", "ModuleMainClass", "NestHost", "NestMembers", "Record", "PermittedSubclasses", "Synthetic", "Deprecated", "Signature", "RuntimeVisibleAnnotations", "RuntimeInvisibleAnnotations", "RuntimeVisibleTypeAnnotations", "RuntimeInvisibleTypeAnnotations"],
+		&["ConstantValue", "Synthetic", "Deprecated", "Signature", "RuntimeVisibleAnnotations", "RuntimeInvisibleAnnotations", "RuntimeVisibleTypeAnnotations", "RuntimeInvisibleTypeAnnotations"],
+		&["Code", "Exceptions", "RuntimeVisibleParameterAnnotations", "RuntimeInvisibleParameterAnnotations", "AnnotationDefault", "MethodParameters", "Synthetic", "Deprecated", "Signature", "RuntimeVisibleAnnotations", "RuntimeInvisibleAnnotations", "RuntimeVisibleTypeAnnotations", "RuntimeInvisibleTypeAnnotations"],
+		&["LineNumberTable", "LocalVariableTable", "LocalVariableTypeTable", "StackMapTable", "RuntimeVisibleTypeAnnotations", "RuntimeInvisibleTypeAnnotations"],
+	];
+	let foreign = ["Code", "ConstantValue", "LineNumberTable", "SourceFile", "Exceptions", "StackMapTable", "Record", "NestHost", "InnerClasses", "MethodParameters", "AnnotationDefault", "LocalVariableTable", "Module", "BootstrapMethods"];
+	let invented = ["code", "Foo", "", "org.example.Custom", "Deprecated2", "Synthetic ", "\u{e9}t\u{e9}", "ScalaSig", "RuntimeVisibleAnnotation"];
+	for _ in 0..(if ctx.thorough { 200 } else { 40 }) {
+		let ctxn = rng.below(4);
+		let mut pool = Pool::new();
+		let this = pool.class("p/U"); let sup = pool.class("java/lang/Object");
+		let mut list: Vec<(String, Vec<u8>)> = vec![];
+		for _ in 0..rng.below(6) {
+			let name = if rng.chance(1, 2) { rng.pick(&invented[..]).to_string() } else { rng.pick(&foreign[..]).to_string() };
+			if jvms[ctxn].contains(&name.as_str()) || (ctxn == 3 && name == "StackMap") { continue; }
+			let payload: Vec<u8> = (0..rng.below(9)).map(|_| rng.next() as u8).collect();
+			list.push((name, payload));
+		}
+		// a few harmless predefined ones in between
+		if rng.chance(1, 2) && ctxn != 3 { list.insert(rng.below(list.len() + 1), ("Deprecated".into(), vec![])); }
+		if rng.chance(1, 3) && ctxn != 3 { list.insert(rng.below(list.len() + 1), ("Synthetic".into(), vec![])); }
+		let attrs: Vec<Attr> = list.iter().map(|(n, b)| (pool.utf8(n), b.clone())).collect();
+		let name = pool.utf8("m"); let dv = pool.utf8("()V"); let di = pool.utf8("I"); let a_code = pool.utf8("Code");
+		let (fields, methods, cattrs): (Vec<Member>, Vec<Member>, Vec<Attr>) = match ctxn {
+			0 => (vec![], vec![], attrs),
+			1 => (vec![Member { access: 1, name, desc: di, attrs }], vec![], vec![]),
+			2 => (vec![], vec![Member { access: 0x0401, name, desc: dv, attrs }], vec![]),
+			_ => (vec![], vec![Member { access: 1, name, desc: dv, attrs: vec![(a_code, code_attr(1, 1, &[0xb1], &[], &attrs))] }], vec![]),
+		};
+		let bytes = class_bytes(&pool, 0, 52, 0x0421, this, sup, &[], &fields, &methods, &cattrs);
+		let b2 = bytes.clone();
+		let got = guarded(move || duke::read_class(&mut Cursor::new(b2)).ok().map(|c| {
+			let a = match ctxn { 0 => c.attributes.clone(), 1 => c.fields[0].attributes.clone(), 2 => c.methods[0].attributes.clone(), _ => c.methods[0].code.as_ref().map(|c| c.attributes.clone()).unwrap_or_default() };
+			a.into_iter().map(|x| (fbh::gal::cps(&x.name), x.bytes)).collect::<Vec<_>>()
+		}));
+		let want: Vec<(Vec<u32>, Vec<u8>)> = list.iter().filter(|(n, _)| !jvms[ctxn].contains(&n.as_str())).map(|(n, b)| (fbh::gal::cps_str(n), b.clone())).collect();
+		r.eval(&hex(&bytes), !want.is_empty());
+		r.count(&format!("unknown_attrs_ctx{ctxn}"));
+		let replay = format!("property C01\nwhat: unknown attributes at level {ctxn} (0 class, 1 field, 2 method, 3 Code) must be delivered byte for byte, in order\nattributes in the file: {list:?}\nclass file (hex): {}\n", hex(&bytes));
+		match got {
+			Err(p) => r.violation(format!("read_class panicked on a class with unknown attributes: {p}"), replay),
+			Ok(None) => r.violation("read_class rejects a class with unknown attributes".into(), replay),
+			Ok(Some(g)) => {
+				if g != want { r.violation(format!("unknown attributes delivered {g:?}, the file has {want:?}"), replay); }
+				let gl = |v: &[(Vec<u32>, Vec<u8>)]| format!("[{}]", v.iter().map(|(n, b)| format!("({}, {})", gs(n), fbh::gal::gnums(b.iter().map(|x| *x as u64)))).collect::<Vec<_>>().join("; "));
+				let all: Vec<(Vec<u32>, Vec<u8>)> = list.iter().map(|(n, b)| (fbh::gal::cps_str(n), b.clone())).collect();
+				r.case("unknown-attrs", format!("CUnknown {ctxn} {} {}", gl(&all), gl(&g)));
+			}
+		}
+	}
+}
+
+// ---------------------------------------------------------------------------------------------
+// outside the hypotheses: one deliberately broken method per class; model and duke must agree on
+// Err / on what is still delivered (no oracle: these are not well-formed class files)
+fn stream_broken(ctx: &Ctx, r: &mut Report, rng: &mut Rng) {
+	let u = build_universe(rng, false);
+	for _ in 0..(if ctx.thorough { 400 } else { 80 }) {
+		let n = rng.range(2, 12);
+		let mut m = gen_method(rng, &u, n, true);
+		let clen = m.code.len();
+		let kind = rng.below(9);
+		match kind {
+			0 => { let i = rng.below(clen); m.code[i] = rng.next() as u8; }                       // any byte changed
+			1 => { m.code.truncate(rng.range(1, clen)); }                                        // truncated
+			2 => { let i = rng.below(clen); m.code[i] = *rng.pick(&[0xcau8, 0xfe, 0xff, 0xcb, 0xc4]); }   // reserved opcode / stray wide
+			3 => { m.lay.push(clen + rng.range(0, 3)); m.exc.push((0, n, n + 1, 0)); }             // handler at or past the end
+			4 => { m.lay.push(clen + 1 + rng.below(3)); m.exc.push((0, n + 1, 0, 0)); }            // end past the end
+			5 => { m.lay.push(clen + rng.below(2)); m.attrs.push(CA::Lines(vec![(n + 1, 7)])); }   // line number at / past the end
+			6 => { m.lay.push(clen + 1 + rng.below(70000 - clen)); m.attrs.push(CA::Lvt(vec![(0, n + 1)])); }   // range past the end
+			7 => { if clen > 2 { m.lay.push(rng.range(1, clen - 1)); m.attrs.push(CA::Lines(vec![(n + 1, 9)])); } }   // inside an instruction (or not)
+			_ => { m.code.extend([0xa7, 0x7f, 0xff]); }                                           // goto far beyond the end
+		}
+		if m.lay.iter().any(|&x| x > 65535) { m.lay.iter_mut().for_each(|x| if *x > 65535 { *x = 65535 }); }
+		r.count(&format!("broken_kind{kind}"));
+		let mut pool = u.pool.clone();
+		let bytes = class_of(&u, std::slice::from_ref(&m), &mut pool);
+		r.eval(&hex(&bytes), true);
+		let got = read_with_duke(&bytes);
+		let res = match &got { Outcome::Ok(v) => { r.count("broken_still_ok"); format!("(Ok [{}])", v.iter().map(g_xsem).collect::<Vec<_>>().join("; ")) } Outcome::Err => { r.count("broken_err"); "Err".into() } Outcome::Panic(_) => { r.count("broken_panic_not_compared"); continue } };
+		r.case("broken", format!("CClass {} {} [{}] {}", pool.gallina(), g_bsm(&u.bsm), m.g_code_in(), res));
+	}
+}
+
 pub fn run_all(ctx: &Ctx, r: &mut Report) -> anyhow::Result<()> {
 	let mut rng = Rng::new(ctx.seed);
 	r.rule = "generated classes: 1..8 methods sharing one generated constant pool (random group order, filler entries pushing indices across 255/256, duplicates, two-slot entries, nested dynamic constants), each body 1..120 random instructions over the whole instruction set with a random admissible encoding form per instruction (xload_n/xload/wide, ldc/ldc_w/ldc2_w, iinc/wide iinc, goto/goto_w, both switches at every padding), exception/line/local-variable/stack-map tables over random instruction indices in shuffled attribute order; the oracle compares what duke delivers with the description the class was generated from; a case is non-trivial when the class has at least one instruction; distinct by class bytes".into();
 	let mut g = rng.fork(1);
 	stream_generated(ctx, r, &mut g);
+	stream_pool(ctx, r, &mut rng.fork(2));
+	stream_access(ctx, r, &mut rng.fork(3));
+	stream_unknown(ctx, r, &mut rng.fork(4));
+	stream_broken(ctx, r, &mut rng.fork(5));
+	crate::fstreams::stream_spec_knobs(ctx, r, &mut rng.fork(6));
+	crate::fstreams::stream_boundary(ctx, r);
+	crate::fstreams::stream_corpus(ctx, r);
 	if std::env::var("C01_PROBE").is_ok() { probe(r, &mut rng.fork(99)); }
 	Ok(())
 }
 
 /// ad-hoc probes of candidate defects (development aid, only with env C01_PROBE)
 fn probe(r: &mut Report, rng: &mut Rng) {
+	r.notes.push(format!("ModuleFlags 0x20 -> {:?}; 0x10 -> {:?}", duke::tree::module::ModuleFlags::from(0x20u16), duke::tree::module::ModuleFlags::from(0x10u16)));
 	let u = build_universe(rng, false);
 	for _ in 0..50 {
 		let mut pool = u.pool.clone();
